@@ -21,9 +21,7 @@ Lemma repo_no_panic_from : forall s os, run repo_cfg (Run s) os <> Crashed.
 Proof. intros. apply run_no_panic. apply repo_cfg_good. Qed.
 
 Lemma repo_reader_no_panic : forall limit buf,
-  read_response_bounded (mkCfg (g_neg repo_cfg) (g_limit repo_cfg) limit (g_close repo_cfg) (g_reg_topics repo_cfg)
-     (g_reg_chans repo_cfg) (g_skip_exiting repo_cfg) (g_unreg_topic repo_cfg) (g_unreg_chan repo_cfg) (g_precreate_first repo_cfg) (g_skip_eph repo_cfg)) buf
-  <> RRPanic.
+  read_response_bounded (repo_cfg <| g_max := limit |>) buf <> RRPanic.
 Proof. intros. apply rrb_no_panic. reflexivity. Qed.
 
 (* ------------------------------------------------------------------ convergence *)
@@ -121,7 +119,9 @@ Proof.
   pose proof (repo_reach_QI os s X) as Q.
   destruct (advance_query repo_cfg (links s) t (mkDs (objs s) (dats s) (bag s)) i Q F PC) as (A & B & _ & D).
   fold x' in A, B, D. split.
-  - rewrite B. apply filter_In. split. eapply query_covers; eauto. cbn. rewrite E. reflexivity.
+  - rewrite B. apply filter_In. split.
+    + apply (query_covers repo_cfg (links s) t k ch eq_refl); auto.
+    + cbn. rewrite E. reflexivity.
   - assert (QX x') by (apply QX_data_step; [reflexivity | cbn; eapply repo_reach_WF; eauto | exact Q]).
     destruct H as (_ & Q1 & _). apply Q1. rewrite D. lia.
 Qed.
@@ -162,8 +162,7 @@ Lemma k6b_repaired :
   end.
 Proof. vm_compute. repeat split; reflexivity. Qed.
 
-Definition cfg_without_exiting_skip : cfg :=
-  mkCfg true true 5242880 true true true false true true true true.
+Definition cfg_without_exiting_skip : cfg := repo_cfg <| g_skip_exiting := false |>.
 
 Lemma k6b_without_the_skip :
   match run cfg_without_exiting_skip (Run init) (k6b_hist ++ k6b_suf) with
@@ -171,3 +170,66 @@ Lemma k6b_without_the_skip :
   | Crashed => False
   end.
 Proof. vm_compute. repeat split; reflexivity. Qed.
+
+(* ... for EVERY subset of failing nsqlookupds: what is recorded is exactly the non-ephemeral
+   channels known to the asked lookupds that answer (none if all fail) *)
+Lemma repo_precreate_exact : forall os s t i ch,
+  run repo_cfg (Run init) os = Run s ->
+  find_topic (objs s) t = Some i -> d_pc (getD (dats s) i) = 0 ->
+  let x' := data_step repo_cfg (links s) (TopicAdvance t) (mkDs (objs s) (dats s) (bag s)) in
+  (In ch (d_want (getD (x_dats x') i)) <->
+   eph ch = false /\
+   exists k, In k (links s) /\ k_conf k = true /\ k_info k = true /\ l_up k = true /\ l_http k = true /\
+             In (t, ch) (l_known k)).
+Proof.
+  intros os s t i ch X F PC x'.
+  pose proof (repo_reach_QI os s X) as Q.
+  destruct (advance_query repo_cfg (links s) t (mkDs (objs s) (dats s) (bag s)) i Q F PC) as (_ & B & _).
+  fold x' in B. rewrite B, filter_In. cbn [g_skip_eph repo_cfg]. split.
+  - intros [H E]. split. { destruct (eph ch); auto; discriminate. } apply (query_sound repo_cfg); auto.
+  - intros [E (k & Hk & C & I & U & Ht & Kn)]. split.
+    + apply (query_covers repo_cfg (links s) t k ch eq_refl); auto.
+    + rewrite E. reflexivity.
+Qed.
+
+Lemma repo_precreate_all_fail : forall ls t,
+  (forall k, In k ls -> asked k = true -> answers k = false) -> query repo_cfg ls t = [].
+Proof. intros. apply query_all_fail. auto. Qed.
+
+(* K6c: a reconnect inside the deletion of a topic's ONLY channel.  The channel is exiting but
+   still in the map: connectCallback skips it and must register the bare topic. *)
+Definition k6c_hist : list op :=
+  [Reconfigure [0]; TopicCreate 0; TopicAdvance 0; TopicAdvance 0; Deliver 0; ChanCreate 0 0; Deliver 0;
+   ChanDeleteBegin 0 0; Deliver 0; FReply 0 [RClose]; Tick; Tick; ChanDeleteEnd 0 0].
+Definition k6c_suf : list op := [Tick; Tick].
+
+Lemma k6c_converges :
+  hazard_free repo_cfg (Run init) (k6c_hist ++ k6c_suf) = true /\
+  match run repo_cfg (Run init) (k6c_hist ++ k6c_suf) with
+  | Run s => bag s = [] /\ live_keys (objs s) = [KT 0%N] /\ map l_regs (links s) = [[KT 0%N]]
+  | Crashed => False
+  end.
+Proof. vm_compute. repeat split; reflexivity. Qed.
+
+Definition cfg_bare_only_when_map_empty : cfg := repo_cfg <| g_bare_no_live := false |>.
+
+Lemma k6c_with_len_channelMap :
+  match run cfg_bare_only_when_map_empty (Run init) (k6c_hist ++ k6c_suf) with
+  | Run s => bag s = [] /\ live_keys (objs s) = [KT 0%N] /\ map l_regs (links s) = [[]]
+  | Crashed => False
+  end.
+Proof. vm_compute. repeat split; reflexivity. Qed.
+
+(* the partial-result rule matters: with "any error => no data" one failing nsqlookupd hides the
+   channels the other one knows *)
+Definition cfg_query_all_or_nothing : cfg := repo_cfg <| g_partial_query := false |>.
+Definition two_lookupds_one_http_down : list op :=
+  [Reconfigure [0; 1]; FKnown 0 [(7, 2)]%N; FHttp 1 false; TopicCreate 7; TopicAdvance 7; TopicAdvance 7; TopicAdvance 7;
+   Put 7 1; Pump 7].
+Lemma partial_query_matters :
+  match run repo_cfg (Run init) two_lookupds_one_http_down, run cfg_query_all_or_nothing (Run init) two_lookupds_one_http_down with
+  | Run s, Run s' => map (fun j => (o_c (getO (objs s) j), d_q (getD (dats s) j))) (chans_of (objs s) 0) = [(2, [1])]%N /\
+                     chans_of (objs s') 0 = []
+  | _, _ => False
+  end.
+Proof. vm_compute. split; reflexivity. Qed.
